@@ -252,8 +252,30 @@ func newExRecorded(src []byte, sc *tf.Scanned, ignoreParseErrors bool) string {
 	})
 }
 
+// scanPanicCase: the real scanner itself panics on src, so there are no tokens for the model: the
+// case goes through the oracle only (case line `tplsrc <hex source>`, no model line).
+func scanPanicCase(src, why string) {
+	line := "tplsrc\t" + vh.HexS(src)
+	setCurrent(line, src)
+	a := guarded(func() string {
+		_, err := tpl.New(src)
+		return "returned " + fmt.Sprintf("%T", err)
+	})
+	o.Count("scanner_panics")
+	if strings.HasPrefix(a, "PANIC") {
+		o.Oracle("new-panic-"+panicClass(a), line, fmt.Sprintf("tpl.New(%q): %s", src, a))
+	} else {
+		// tpl.New survived although scanning the same text panicked: report as a broken tie
+		o.Oracle("scanner-panic-"+panicClass(why), line, fmt.Sprintf("tpl/scanner panics on %q: %s (tpl.New %s)", src, why, a))
+	}
+}
+
 func newCase(src string, tag string) {
-	sc := tf.Scan([]byte(src))
+	sc, sp := tf.SafeScan([]byte(src))
+	if sp != "" {
+		scanPanicCase(src, sp)
+		return
+	}
 	line := fmt.Sprintf("tplnew\t%s;%s;%s", sc.TokField(), sc.ErrAtField(), unqField(&sc))
 	setCurrent(line, src)
 	a := guarded(func() string {
@@ -350,7 +372,10 @@ var lineCols = [][2]int{{1, 1}, {3, 5}, {0, 0}, {-2, -7}, {1 << 40, 1 << 40}, {1
 var newExCount int
 
 func newExCase(src string, variant int) {
-	sc := tf.Scan([]byte(src))
+	sc, sp := tf.SafeScan([]byte(src))
+	if sp != "" {
+		return
+	}
 	_, ok := srcVariant(src, variant)
 	line := fmt.Sprintf("tplnewex\t%s;%s;%s;%d", sc.TokField(), sc.ErrAtField(), unqField(&sc), b2i(ok))
 	setCurrent(line, src)
@@ -400,7 +425,10 @@ func newExCase(src string, variant int) {
 }
 
 func clCase(src string) {
-	sc := tf.Scan([]byte(src))
+	sc, sp := tf.SafeScan([]byte(src))
+	if sp != "" {
+		return
+	}
 	line := fmt.Sprintf("tplcl\t%s;%s", sc.TokField(), unqField(&sc))
 	setCurrent("", "") // a crash here is not a C27 failure (cl.NewEx on a tree with parse errors)
 	out := newExRecorded([]byte(src), &sc, true)
@@ -439,6 +467,10 @@ func genGrammar(r *vh.Rand) string {
 		var words []string
 		hole := -1
 		e.Words(0, nil, &words, &hole)
+		if r.Chance(10) && len(words) > 0 { // a stray number among the factors
+			k := r.Intn(len(words) + 1)
+			words = append(words[:k:k], append([]string{r.Pick(numbers)}, words[k:]...)...)
+		}
 		b.WriteString(name + " = " + tf.JoinWords(words, nil))
 		if r.Chance(15) {
 			b.WriteString(" => { x }")
@@ -446,6 +478,24 @@ func genGrammar(r *vh.Rand) string {
 		b.WriteString(r.Pick([]string{"\n", ";", " ;\n", "\n\n"}))
 	}
 	return b.String()
+}
+
+// numeric lexemes of every class the TPL scanner knows, valid and malformed
+var numbers = []string{"0", "7", "42", "089", "08", "09", "0789", "0b2", "0b12", "0b", "0b101", "0o9", "0o18", "0o", "0o17", "0x", "0xg", "0x1F", "0X_1",
+	"1_", "1__2", "1_000", "_1", "1e", "1e+", "1e-", "1e5", "1.e3", "1.5", ".5", "5.", "0.", "00.5", "08.5", "0x1p", "0x1p-2", "0x1.8p1", "0x.p1", "0b1.0", "0o1e2",
+	"1i", "08i", "0x1i", "3r", "3.4r", "08r", "10km", "2.3s", "5ns", "089km", "0b2km", "1e9999", "0e0", "00", "000", "0_8", "0_9_", "0b_2", "0o_8",
+	"12345678901234567890123456789012345678901234567890", "0999999999999999999999999999999999999999", "0b" + strings.Repeat("10", 40) + "2",
+	"0x" + strings.Repeat("f", 60) + "g", "1" + strings.Repeat("_1", 30) + "_"}
+
+// numberCases: each number at offset 0 and after other text, separated and glued to identifiers, strings,
+// operators, in rule-name and in expression position.
+func numberCases(num string) []string {
+	return []string{
+		num, num + " = a", num + "\n", "doc = " + num, "doc = " + num + "\n", "doc = \"x\" " + num, "doc = \"x\" " + num + " ;",
+		"doc = a" + num, "doc = " + num + "a", "doc = \"x\"" + num, "doc = " + num + "\"x\"", "doc = '" + num + "'", "doc = (" + num + ")",
+		"doc = a | " + num + " | b\na = \"y\"", "doc = *" + num, "doc = a % " + num, "doc = a ++ " + num, "doc = a => { " + num + " }",
+		"doc = a\n" + num + " = b", "// c\ndoc = a " + num, "doc = a /* " + num + " */ " + num + "\n\tb = " + num,
+	}
 }
 
 var escapes = []string{`\a`, `\b`, `\f`, `\n`, `\r`, `\t`, `\v`, `\\`, `\'`, `\"`, `\0`, `\00`, `\000`, `\377`, `\400`, `\477`, `\8`, `\x`, `\x4`, `\x41`,
@@ -496,6 +546,11 @@ func main() {
 			for _, q := range quoteForms(body) {
 				newCase("doc = "+q, "byte")
 			}
+		}
+	}
+	for _, num := range numbers {
+		for _, g := range numberCases(num) {
+			newCase(g, "number")
 		}
 	}
 	for _, e := range escapes {
@@ -552,8 +607,16 @@ func main() {
 				if rr.Bool() {
 					bs = append(bs[:j:j], bs[j+1:]...)
 				} else {
-					ins := []byte("|%+*?()=;\"'`\\\n x")
-					bs = append(bs[:j:j], append([]byte{ins[rr.Intn(len(ins))]}, bs[j:]...)...)
+					if rr.Chance(25) { // a number, glued or separated
+						num := rr.Pick(numbers)
+						if rr.Bool() {
+							num = " " + num + " "
+						}
+						bs = append(bs[:j:j], append([]byte(num), bs[j:]...)...)
+					} else {
+						ins := []byte("|%+*?()=;\"'`\\\n x0189._beoxpir")
+						bs = append(bs[:j:j], append([]byte{ins[rr.Intn(len(ins))]}, bs[j:]...)...)
+					}
 				}
 			}
 			newCase(string(bs), "damaged")
@@ -577,6 +640,11 @@ func main() {
 func replay(line string) {
 	fs := strings.SplitN(line, "\t", 2)
 	if len(fs) != 2 {
+		return
+	}
+	if fs[0] == "tplsrc" {
+		b, _ := vh.UnHex(fs[1])
+		newCase(string(b), "replay")
 		return
 	}
 	parts := strings.Split(fs[1], ";")
